@@ -9,6 +9,7 @@ import Sgz.Model.Axes
 import Sgz.Model.Emul
 import Sgz.Model.Headers
 import Sgz.Model.Crop
+import Sgz.Model.Reblock
 /-!
 Line-protocol driver over the executable model (`Sgz/Model`, Mathlib-free).  One request per line, one answer per
 line.  The Python harness sends the same request to the real implementation and diffs canonical answers.
@@ -334,6 +335,18 @@ def handleCrop (ws : List String) : String :=
     | _, _, _, _ => "bad-op"
   | _, _ => "bad-op"
 
+/-- `reblock <geo>`: refusal, or the number of output units and a digest of (source unit + 1, 0 = zero-filled) -/
+def handleReblock (ws : List String) : String :=
+  match ints ws with
+  | some gs =>
+    match mkGeo gs with
+    | some g =>
+      if !Reblock.supported g then "err assertion" else
+      let us := (Reblock.units g).map fun o => match o with | some k => k + 1 | none => 0
+      s!"ok {us.length} {digestNat us}"
+    | none => "bad-op"
+  | none => "bad-op"
+
 def handle (line : String) : String :=
   if line.startsWith "hist " then handleHist (line.drop 5).toString else
   if line.startsWith "hwtable " then handleHwTable (line.drop 8).toString else
@@ -347,6 +360,7 @@ def handle (line : String) : String :=
   | "axes" :: rest => handleAxes rest
   | "emul" :: rest => handleEmul rest
   | "crop" :: rest => handleCrop rest
+  | "reblock" :: rest => handleReblock rest
   | "hashfeed" :: rest => handleHashFeed rest
   | ["ping"] => "pong"
   | _ => "bad-op"
